@@ -45,6 +45,42 @@ def run_scenarios(ctx, repeat, scenarios=None):
     return trace, res
 
 
+def catalogue_replay(ctx):
+    """Catalogue!Agree / SnapOK on the real storage.DatasetManager: random logs of create / delete / add-node /
+    remove-node entries applied to three managers - whole log; prefix + snapshot of a later index + rest; snapshot
+    + rest - which must end with the same catalogue (CatalogueReplayTrace)."""
+    cat = ctx.go_build("cmd/cat", "cat")
+    tr = ctx.path("catreplay.ndjson")
+    nlogs = 400 if ctx.tier == "quick" else 4000
+    ctx.run([cat, tr, str(ctx.seed), str(nlogs)], timeout=1800)
+    v, n = vlib.validate_trace(ctx, "CatalogueReplayTrace", "CatalogueReplayTrace.cfg", tr, lambda l: True, chunk_events=400)
+    evs = vlib.read_ndjson(tr)
+    by = {}
+    for x in v:
+        e = evs[x[0]]
+        by.setdefault("%s@catalogue-replay" % x[1], []).append(e)
+    for sig in sorted(by):
+        e = min(by[sig], key=lambda z: len(z["log"]))
+        ctx.finding(sig, "%s: log %s, follower applied %d entries, snapshot taken at %d: whole log -> %s; prefix + snapshot + rest -> %s; snapshot + rest -> %s (%d such logs)"
+                    % (sig, e["log"], e["cut"], e["snapat"], json.dumps(e["a"])[:300], json.dumps(e["b"])[:300], json.dumps(e["c"])[:300], len(by[sig])), {"event": e})
+    ctx.log("%d catalogue logs on three real DatasetManagers (replay / prefix+snapshot / snapshot): %d failed checks" % (n, len(v)))
+    ctx.cov["catalogue_logs_replayed"] = n
+    # binding self-test: a follower with a replica too many must be rejected
+    mut = json.loads(json.dumps(evs[:30]))
+    done = False
+    for e in mut:
+        for d in e["b"]:
+            if d["parts"] and not done:
+                d["parts"][0]["nodes"] = d["parts"][0]["nodes"] + [9]
+                done = True
+    p = ctx.path("selfcat.ndjson")
+    open(p, "w").writelines(json.dumps(e) + "\n" for e in mut)
+    v2, _ = vlib.validate_trace(ctx, "CatalogueReplayTrace", "CatalogueReplayTrace.cfg", p, lambda l: True)
+    ctx.cov["binding_selftest"]["extra_replica_after_restore_rejected"] = any(x[1] == "RestoreIntoKnownDiffers" for x in v2)
+    if done and not ctx.cov["binding_selftest"]["extra_replica_after_restore_rejected"]:
+        raise vlib.NoVerdict("binding self-test failed: an extra replica after restore was accepted")
+
+
 def real_server_kinds(ctx, scenarios, kinds, repeat=1):
     """Run real-server scenarios, validate with ClusterViewTrace and report the failed checks of the given kinds
     (for checks whose main binding is elsewhere but whose property also speaks about the running system)."""
@@ -83,6 +119,8 @@ def run_family(ctx):
             if not rr.violated:
                 raise vlib.NoVerdict("vacuity guard failed for %s" % sw)
     ctx.cov["exhaustive"] = True
+    if ctx.pid == "C14":
+        catalogue_replay(ctx)
     trace, res = run_scenarios(ctx, 1 if quick else 4)
     viols, n = vlib.validate_trace(ctx, "ClusterViewTrace", "ClusterViewTrace.cfg", trace, lambda l: l.startswith('{"ev":"scenario"'), chunk_events=100000)
     lines = open(trace).read().splitlines()
